@@ -25,6 +25,11 @@ func RepoDir() string {
 
 // Settings builds a Settings object declaring the given sessions with the given global keys.
 func Settings(global map[string]string, ids ...quickfix.SessionID) *quickfix.Settings {
+	return SettingsPer(global, nil, ids...)
+}
+
+// SettingsPer is Settings with keys written into every session's own stanza as well.
+func SettingsPer(global, perSession map[string]string, ids ...quickfix.SessionID) *quickfix.Settings {
 	s := quickfix.NewSettings()
 	for k, v := range global {
 		s.GlobalSettings().Set(k, v)
@@ -44,6 +49,9 @@ func Settings(global map[string]string, ids ...quickfix.SessionID) *quickfix.Set
 		set(config.TargetSubID, id.TargetSubID)
 		set(config.TargetLocationID, id.TargetLocationID)
 		set(config.SessionQualifier, id.Qualifier)
+		for k, v := range perSession {
+			ss.Set(k, v)
+		}
 		if _, err := s.AddSession(ss); err != nil {
 			panic(err)
 		}
@@ -57,6 +65,25 @@ func FileFactory(dir string, sync bool, ids ...quickfix.SessionID) quickfix.Mess
 		g[config.FileStoreSync] = "N"
 	}
 	return file.NewStoreFactory(Settings(g, ids...))
+}
+
+// FileFactorySynced is a file store factory with syncing enabled, configured in one of the ways a
+// settings file can say so: 0 not mentioned (the default is on), 1 [DEFAULT] FileStoreSync=Y,
+// 2 [DEFAULT] says N and the session's own stanza says Y (a session setting overrides the default),
+// 3 only the session's stanza says Y.
+func FileFactorySynced(dir string, variant int, ids ...quickfix.SessionID) quickfix.MessageStoreFactory {
+	g := map[string]string{config.FileStorePath: dir}
+	switch variant % 4 {
+	case 1:
+		g[config.FileStoreSync] = "Y"
+	case 2:
+		g[config.FileStoreSync] = "N"
+	}
+	var per map[string]string
+	if variant%4 >= 2 {
+		per = map[string]string{config.FileStoreSync: "Y"}
+	}
+	return file.NewStoreFactory(SettingsPer(g, per, ids...))
 }
 
 // CreateSQLite creates an sqlite database file with the repository's DDL.
